@@ -786,7 +786,7 @@ fn parts(ctx: &Ctx) -> Vec<PartSpec> {
     let b = if ctx.quick() { 150.0 } else { 2400.0 };
     let mut v = vec![PartSpec::new("value-types", json!({"p": "values"})), PartSpec::new("explicit-parents", json!({"p": "explicit"})), PartSpec::new("record-window", json!({"p": "window"}))];
     let fl = filters(true);
-    let depth = if ctx.quick() { 3 } else { 4 };
+    let depth = if ctx.quick() { 3 } else { 5 };
     for fi in 0..fl.len() {
         v.push(PartSpec::new(&format!("trees-depth{}-filter{}", depth, fi), json!({"p": "trees", "depth": depth, "filter": fi, "other": fi % 2 == 0})).budget(b));
     }
